@@ -289,17 +289,27 @@ pub struct KnownFindings {
 }
 
 pub fn load_known() -> KnownFindings {
-    let p = root().join("known_findings.json");
-    match std::fs::read(&p) {
-        Ok(b) => match serde_json::from_slice(&b) {
-            Ok(k) => k,
-            Err(e) => {
-                println!("INCONCLUSIVE cannot parse {}: {e}", p.display());
-                std::process::exit(2);
-            }
-        },
-        Err(_) => KnownFindings::default(),
+    // known_findings.json plus every known_findings.d/*.json (one file per property keeps edits apart)
+    let mut files = vec![root().join("known_findings.json")];
+    if let Ok(rd) = std::fs::read_dir(root().join("known_findings.d")) {
+        let mut extra: Vec<PathBuf> = rd.filter_map(|e| e.ok().map(|e| e.path())).collect();
+        extra.retain(|p| p.extension().is_some_and(|x| x == "json"));
+        extra.sort();
+        files.extend(extra);
     }
+    let mut all = KnownFindings::default();
+    for p in files {
+        if let Ok(b) = std::fs::read(&p) {
+            match serde_json::from_slice::<KnownFindings>(&b) {
+                Ok(k) => all.findings.extend(k.findings),
+                Err(e) => {
+                    println!("INCONCLUSIVE cannot parse {}: {e}", p.display());
+                    std::process::exit(2);
+                }
+            }
+        }
+    }
+    all
 }
 
 // ---------------------------------------------------------------------------------------------
